@@ -4,6 +4,7 @@
 //   F <id> <type> <n> <cost> <depth>   parallel_for<type>(n) at nesting depth 0..2 (inside 3-wide int loops)
 //   B <id> <type> <n> <B>              parallel_in_blocks_of<B,type>(n)
 //   E <id> <count> <a> <b>             parallel_foreach over vector<long>(count) [begin+a, end-b)
+//   M <id> <distance>                  parallel_foreach over <distance> unsigned chars of an untouched NORESERVE mapping
 //   T <id> <n> <prefill> <park>        (internal backend only) recorded ITaskSet(n) added through the enkiTS
 //                                      API with <prefill> trivial sets already in the caller's pipe and, if
 //                                      park=1, all workers parked in spinning sets
@@ -21,6 +22,7 @@
 #include <vector>
 #include <algorithm>
 #include <unistd.h>
+#include <sys/mman.h>
 
 #include "rkcommon/tasking/parallel_for.h"
 #include "rkcommon/tasking/parallel_foreach.h"
@@ -60,7 +62,7 @@ static void watchdog_main()
 }
 static long long g_wd_ms = 20000;
 struct Armed {
-  Armed() { g_deadline_ms = now_ms() + g_wd_ms; }
+  explicit Armed(int mult = 1) { g_deadline_ms = now_ms() + g_wd_ms * mult; }
   ~Armed() { g_deadline_ms = 0; }
 };
 
@@ -280,6 +282,36 @@ static void do_E(const char *id, long count, long a, long b)
   fflush(stdout);
 }
 
+// ------------------------------------------------------------------ M: parallel_foreach over a huge sparse range
+// d elements of unsigned char in a MAP_NORESERVE mapping; the body only takes the element's address (no page is
+// touched) except for the last 64 elements, which it writes: a distance above INT_MAX costs no memory.
+static void do_M(const char *id, u64 d)
+{
+  void *p = mmap(nullptr, (size_t)d + 4096, PROT_READ | PROT_WRITE, MAP_PRIVATE | MAP_ANONYMOUS | MAP_NORESERVE, -1, 0);
+  if (p == MAP_FAILED) { printf("%s mmap-failed\n", id); fflush(stdout); return; }
+  unsigned char *base = (unsigned char *)p;
+  u64 tail = d < 64 ? d : 64;
+  reset_slots();
+  {
+    Armed a(20);
+    parallel_foreach(base, base + d, [&](unsigned char &x) {
+      u64 k = (u64)(&x - base);
+      if (k >= d) {
+        char m[96]; snprintf(m, sizeof m, "element offset=%llu passed to f but the range has %llu elements", k, d);
+        fatal_line(4, "EXTRA", m);
+      }
+      my_slot().cnt++;
+      if (k >= d - tail) x = (unsigned char)(x + 1);
+    });
+  }
+  u64 cnt = 0; for (auto &s : g_slots) cnt += (u64)s.cnt;
+  u64 tailok = 0; for (u64 k = d - tail; k < d; ++k) tailok += base[k] == 1;
+  if (cnt == d && tailok == tail) printf("%s cnt=%llu ok\n", id, cnt);
+  else printf("%s cnt=%llu BAD last_elements_visited_once=%llu/%llu\n", id, cnt, tailok, tail);
+  fflush(stdout);
+  munmap(p, (size_t)d + 4096);
+}
+
 // ------------------------------------------------------------------ T: recorded task set (internal backend)
 #ifdef RKCOMMON_TASKING_INTERNAL
 struct Piece { uint32_t t, lo, hi; };
@@ -369,6 +401,8 @@ int main(int argc, char **argv)
       else { printf("%s bad-type\n", id); fflush(stdout); }
     } else if (kind[0] == 'E') {
       do_E(id, atol(a), atol(b), atol(c));
+    } else if (kind[0] == 'M') {
+      do_M(id, strtoull(a, 0, 10));
     } else if (kind[0] == 'T') {
 #ifdef RKCOMMON_TASKING_INTERNAL
       do_T(id, (uint32_t)strtoul(a, 0, 10), atoi(b), atoi(c), T);
